@@ -6,6 +6,7 @@ import Ajson.Proofs.HeapBasics
 import Ajson.Proofs.EqValue
 import Ajson.Proofs.CellsSteps
 import Ajson.Proofs.EqSymm
+import Ajson.Proofs.UnpackTotal
 import Ajson.Proofs.LazyParsed
 import Ajson.Proofs.Acyclic
 
@@ -199,6 +200,23 @@ theorem C17_eq_is_symmetric_and_reflexive {h : Heap} (hs : Proofs.Struct h) (hc 
     (Proofs.noNaN va = true → (h.eq (some a) (some a)).2 = .ok true) :=
   ⟨Proofs.eq_symm h a b va vb hs hc ha hb ea eb, Proofs.jvalEq_symm_nodes (h.size + 1) h hs a b va vb ha hb ea eb,
    fun nn => Proofs.eq_refl h a va hs hc ha ea nn⟩
+
+/-- **`Eq` always answers** on a sound acyclic heap with right cells whose scalars have values (no number literal out of range): the
+fuel suffices, no panic, no error — and the answer is the equality of the two values -/
+theorem C17_eq_total {h : Heap} (hs : Proofs.Struct h) (ha : Proofs.Acyc h) (hc : Proofs.CellsOK h) (sc : Proofs.ScalarsOK h)
+    (a b : Nat) (hna : a < h.size) (hnb : b < h.size) :
+    ∃ va vb, Proofs.absVal (h.size + 1) h a = some va ∧ Proofs.absVal (h.size + 1) h b = some vb ∧
+      (h.eq (some a) (some b)).2 = .ok (Proofs.jvalEq va vb) := by
+  have val : ∀ n : Nat, n < h.size → ∃ v, Proofs.absVal (h.size + 1) h n = some v := by
+    intro n hn
+    obtain ⟨w, hw⟩ := Proofs.absSorted_total sc (Proofs.clone_hypothesis hs ha n hn).more
+    rw [Proofs.absSorted_eq_canon] at hw
+    cases hv : Proofs.absVal (h.size + 1) h n with
+    | none => rw [hv] at hw; cases hw
+    | some v => exact ⟨v, rfl⟩
+  obtain ⟨va, ea⟩ := val a hna
+  obtain ⟨vb, eb⟩ := val b hnb
+  exact ⟨va, vb, ea, eb, Proofs.eq_value h a b va vb hs hc hna hnb ea eb⟩
 
 /-- the comparison is a read: it fills empty value cells only, and no node's value changes -/
 theorem C17_comparisons_are_reads (h : Heap) (a b : Option Id) (o : Ord4) :
